@@ -68,7 +68,10 @@ fn export_keeps_target(k: &str, d: &str, ext: &str, form: &str) -> Result<(), St
     };
     let mut state: HashMap<String, String> = HashMap::new();
     state.insert(src_key.clone(), format!("# src\n\n{}\n", line));
-    state.insert(k.to_string(), "# target\n".to_string());
+    // the target's title: a word of its own, or (regular references) the file name itself, so that the refreshed
+    // link text equals the url written from the same directory
+    let title = if form == "regular" && (k.len() + d.len()) % 2 == 0 { k.rsplit('/').next().unwrap_or(k).to_string() } else { "target".to_string() };
+    state.insert(k.to_string(), format!("# {}\n", title));
     let graph = Graph::import(&state, MarkdownOptions { refs_extension: ext.to_string() });
     let out = graph.to_markdown(&Key::from_file_name(&src_key));
     let links: Vec<_> = md::read(&out, d).links.into_iter().filter(|l| l.block_level).collect();
@@ -79,7 +82,7 @@ fn export_keeps_target(k: &str, d: &str, ext: &str, form: &str) -> Result<(), St
     if back != k {
         return Err(format!("note {:?}: reference {} written as {:?} resolves to {:?}, not {:?} (export {:?})", src_key, line, links[0].dest, back, k, out));
     }
-    if form == "regular" && !out.contains("[target](") {
+    if form == "regular" && !out.contains(&format!("[{}](", title)) {
         return Err(format!("note {:?}: reference to {:?} lost its target's title (export {:?})", src_key, k, out));
     }
     // formatting again changes nothing
